@@ -46,11 +46,21 @@ def setup():
                 log(vlib.tail_errors(p.stdout))
                 log("setup: cargo kani --only-codegen -p %s failed (rc=%d)" % (pkg, p.returncode))
                 return 1
-        try:
-            import verus_engine
-            verus_engine.warm()
-        except ImportError:
-            pass
+        import verus_engine
+        verus_engine.warm()
+        st, txt = verus_engine.native_small_scope()
+        if st != "agree":
+            log("setup: native small-scope search did not agree on the unchanged tree (%s)" % st)
+            log(txt[-2000:])
+            return 1
+        import extract_bevy
+        cdir, _ = extract_bevy.write_crate(d)
+        p = subprocess.run(["cargo", "kani", "--target-dir", vlib.KANI_TARGET + "-bevy", "-Z", "stubbing", "-Z", "unstable-options", "--only-codegen"],
+                           cwd=cdir, env=vlib.kani_env(), stdout=subprocess.PIPE, stderr=subprocess.STDOUT, text=True)
+        if p.returncode != 0:
+            log(vlib.tail_errors(p.stdout))
+            log("setup: cargo kani --only-codegen on the bevy extract failed")
+            return 1
     except Undecided as e:
         log("setup failed: %s" % e)
         return 1
@@ -215,11 +225,31 @@ def run_check(pid, tier, seed, only=None, keep=False):
                 to = max(int(h.get("timeout", 300)) for h in hs)
                 if tier == "thorough":
                     to *= 3
-                out = vlib.run_kani(srepo, pkg, [h["harness"] for h in hs], timeout_s=to, jobs=14, tests=tests,
-                                    extra=["--no-assert-contracts"] + list(flags))
+                try:
+                    out = vlib.run_kani(srepo, pkg, [h["harness"] for h in hs], timeout_s=to, jobs=14, tests=tests,
+                                        extra=["--no-assert-contracts"] + list(flags))
+                except Undecided as e:
+                    msg = str(e)
+                    api_err = re.search(r"error\[E0(560|599|609|026|027|063|425|433)\][^\n]*\n\s*--> tests/verif_derive\.rs", msg)
+                    if pkg == "mina" and tests and api_err:
+                        # The derive-output harness no longer compiles against what the macro generates (a missing
+                        # setter / sub-timeline field / keyframe-data field): the obligation "one setter and one
+                        # sub-timeline per animated field, and only those" fails at type-checking time.
+                        payload = {"property": pid, "obligation": "derive_output_api", "verifier": "rustc (type-checking the contract harness against the real derive expansion)",
+                                   "verifier_output": msg[-5000:], "native_confirmed": False,
+                                   "note": "no-failing-input-found: the generated API differs from the contract (see the rustc errors)"}
+                        rec = {"engine": "kani", "id": "derive_output_api", "harness": "tests/verif_derive.rs", "kind": "contract", "function": "derive(Animate) expansion",
+                               "bounded": hs[0].get("bound"), "verdict": "fail", "detail": msg[msg.find("error["):][:400], "checks": 1, "checks_ok": 0, "solver": "rustc", "solver_s": 0.0,
+                               "clause": "the generated keyframe builder / keyframe data / timeline have exactly one member per animated field", "assumes": [],
+                               "failed_checks": ["derive_output_api::harness does not type-check against the derive output"], "native_confirmed": False}
+                        rec["replay_file"] = vlib.write_replay(pid, "derive_output_api", payload)
+                        per.append(rec)
+                        violations.append(rec)
+                        continue
+                    raise
                 handle_results(hs, out, srepo)
             # ------------ failures -> counterexample -> native replay
-            for rec in [r for r in violations if r["engine"] == "kani"]:
+            for rec in [r for r in violations if r["engine"] == "kani" and "replay_file" not in r]:
                 h = next(x for x in kani_sel if x["id"] == rec["id"])
                 confirm_kani_failure(pid, h["_srepo"], h, rec)
     except Undecided as e:
@@ -313,6 +343,17 @@ def confirm_kani_failure(pid, srepo, h, rec):
 
 def replay(pid, path):
     payload = json.load(open(path))
+    if payload.get("kind") == "native_small_scope":
+        import verus_engine
+        status, txt = verus_engine.native_small_scope()
+        print(txt[-3000:])
+        if status == "disagree":
+            print("VIOLATION property=%s replay=%s" % (pid, path))
+            return 1
+        if status == "agree":
+            print("replay passes on the current tree")
+            return 0
+        return 2
     reg = load_registry()
     h = next((x for x in reg.get("kani", []) if x["id"] == payload.get("obligation")), None)
     if h is None or not payload.get("concrete_playback_tests"):
